@@ -257,6 +257,8 @@ def compare(interp, st, op, a, b):
             r = z_eq(interp, st, a, b)
         elif isinstance(a, SV) and isinstance(b, SV) and isinstance(a.ty, Ref) and a.ty == b.ty:
             r = a.z == b.z
+        elif isinstance(a, SV) and isinstance(b, SV) and isinstance(a.ty, sym.Opaque) and a.ty == b.ty and getattr(a.ty, 'identity', False):
+            r = a.z == b.z          # opaque objects whose identity is their value (enum members, sentinels)
         elif isinstance(a, (Obj, Model, Closure)) or isinstance(b, (Obj, Model, Closure)):
             r = z3.BoolVal(a is b)
         elif isinstance(a, bool) or isinstance(b, bool):
@@ -498,7 +500,7 @@ def getattr_(interp, st, v, name):
         raise Unsupported(f'opaque {v.ty.name()} has no modelled attribute {name!r}')
     if isinstance(v, ExcClass):
         raise Unsupported(f'attribute {name} of exception class')
-    if isinstance(v, Model) and name in getattr(v, 'attrs', {}):
+    if isinstance(v, (Model, CM)) and name in getattr(v, 'attrs', {}):
         yield st, v.attrs[name]
         return
     # methods on builtin-ish values are bound lazily
